@@ -369,11 +369,13 @@ def run_check(prop: Prop, tier: str, seed: int) -> int:
             v.setdefault("case", l)
             violations.append(v)
     if broken or tier == "thorough":
-        pool = [d["case"] for d in disagreements] + lines + [c[0] for c in prop.search_cases(rng)]
+        stuck_lines = [l for l, o in zip(lines, impl_out)
+                       if any(k in o for k in ("RealTimeLimit", "TimeLimit", "Spin", "Deadlock", "harness-exc"))]
+        pool = stuck_lines + [d["case"] for d in disagreements] + lines + [c[0] for c in prop.search_cases(rng)]
         for l in pool:
             if l in seen:
                 continue
-            if stuck >= 3 and len(violations) >= 2:
+            if stuck >= 3 and (len(violations) >= 2 or oracle_runs >= 12):
                 break
             seen.add(l)
             oracle_runs += 1
